@@ -173,7 +173,51 @@ func Le(a, b Term) Term  { return Term{"(<= " + a.S + " " + b.S + ")", SBool} }
 func Ge(a, b Term) Term  { return Le(b, a) }
 func Gt(a, b Term) Term  { return Lt(b, a) }
 func Select(a, i Term) Term {
+	// peephole: select(store(A, i, v), i) == v
+	if strings.HasPrefix(a.S, "(store ") && strings.HasSuffix(a.S, ")") {
+		inner := a.S[len("(store ") : len(a.S)-1]
+		parts := splitSexprs(inner)
+		if len(parts) == 3 && parts[1] == i.S {
+			return Term{parts[2], arrElem(a.Sort)}
+		}
+	}
 	return Term{"(select " + a.S + " " + i.S + ")", arrElem(a.Sort)}
+}
+
+// splitSexprs splits a string into its top-level s-expressions.
+func splitSexprs(s string) []string {
+	var out []string
+	depth := 0
+	start := -1
+	for i := 0; i < len(s); i++ {
+		c := s[i]
+		switch {
+		case c == '(':
+			if depth == 0 && start < 0 {
+				start = i
+			}
+			depth++
+		case c == ')':
+			depth--
+			if depth == 0 {
+				out = append(out, s[start:i+1])
+				start = -1
+			}
+		case c == ' ':
+			if depth == 0 && start >= 0 {
+				out = append(out, s[start:i])
+				start = -1
+			}
+		default:
+			if depth == 0 && start < 0 {
+				start = i
+			}
+		}
+	}
+	if start >= 0 {
+		out = append(out, s[start:])
+	}
+	return out
 }
 func Store(a, i, v Term) Term {
 	return Term{"(store " + a.S + " " + i.S + " " + v.S + ")", a.Sort}
